@@ -11,6 +11,7 @@ import (
 	"os"
 	"os/exec"
 	"regexp"
+	"sort"
 	"strings"
 	"sync"
 	"time"
@@ -229,6 +230,35 @@ func CrashSig(crash string) string {
 		msg = m
 	}
 	msg = normalise(msg)
+	if strings.Contains(msg, "deadlock: all goroutines in bubble are blocked") {
+		// The bubble could not end: some goroutine of the system under test is blocked for good.
+		// Stable signature: the innermost gordian frame of every bubble goroutine that is blocked on a
+		// bare channel operation (not in a select, which a context would cancel).
+		set := map[string]bool{}
+		for _, blk := range strings.Split(crash, "\n\n") {
+			head := blk
+			if i := strings.IndexByte(blk, '\n'); i >= 0 {
+				head = blk[:i]
+			}
+			if !strings.Contains(head, "synctest bubble") || !(strings.Contains(head, "[chan send") || strings.Contains(head, "[chan receive") || strings.Contains(head, "[sync.")) {
+				continue
+			}
+			if strings.Contains(blk, "/zzverif/") {
+				continue // a harness goroutine waiting for the system under test
+			}
+			for _, m := range reFrame.FindAllStringSubmatch(blk, -1) {
+				f := m[1]
+				set[strings.TrimPrefix(f, "github.com/gordian-engine/gordian/")] = true
+				break
+			}
+		}
+		var fs []string
+		for f := range set {
+			fs = append(fs, f)
+		}
+		sort.Strings(fs)
+		return "crash:goroutine-blocked-forever @" + strings.Join(fs, "+")
+	}
 	frame := ""
 	for _, m := range reFrame.FindAllStringSubmatch(crash, -1) {
 		f := m[1]
